@@ -70,6 +70,27 @@ Theorem C12_walk_stop_at_spec : forall vb k pages, pages <> [] ->
 Proof. exact walk_stop_at_spec. Qed.
 Print Assumptions C12_walk_stop_at_spec.
 
+(* the walk itself (it force-collects the pages it enters) changes no page's set of live blocks and keeps the page
+   invariant, whatever the visitor answers and wherever it stops; a completed walk leaves the remote/local lists empty *)
+Theorem C12_walk_keeps_live_sets : forall (S : Type) (visitor : S -> vcall -> S * bool) vb pages,
+  Forall (fun x => page_Inv (snd x)) pages -> forall s,
+  map (fun x => (fst x, page_live (snd x))) (walk_pages_after S visitor vb pages s) =
+  map (fun x => (fst x, page_live (snd x))) pages.
+Proof. exact walk_pages_after_live. Qed.
+Print Assumptions C12_walk_keeps_live_sets.
+
+Theorem C12_walk_keeps_page_inv : forall (S : Type) (visitor : S -> vcall -> S * bool) vb pages,
+  Forall (fun x => page_Inv (snd x)) pages -> forall s,
+  Forall (fun x => page_Inv (snd x)) (walk_pages_after S visitor vb pages s).
+Proof. exact walk_pages_after_inv. Qed.
+Print Assumptions C12_walk_keeps_page_inv.
+
+Theorem C12_completed_walk_collects : forall (S : Type) (visitor : S -> vcall -> S * bool) pages,
+  Forall (fun x => page_Inv (snd x)) pages -> (forall s0 c, snd (visitor s0 c) = true) -> forall s,
+  Forall (fun x => local_free (snd x) = [] /\ thread_free (snd x) = []) (walk_pages_after S visitor true pages s).
+Proof. exact walk_pages_after_complete. Qed.
+Print Assumptions C12_completed_walk_collects.
+
 (* non-vacuity: two pages (48-byte blocks with holes on all three lists; a full 2-block page), stop at the 4th call *)
 Definition ex_p1 : page := mkPage 48 85 10 6 [9; 8] [1; 3] [5] false false false 0.
 Definition ex_p2 : page := mkPage 1024 2 2 2 [] [] [] false false false 0.
@@ -85,4 +106,8 @@ Example C12_ex_walk_stop4 :
 Proof. vm_compute. reflexivity. Qed.
 Example C12_ex_walk_stop_area2 :
   walk_stop_at false 2 [(1, ex_p1); (2, ex_p2)] = ([VArea 1 6 4080 480 48; VArea 2 2 2048 2048 1024], false).
+Proof. vm_compute. reflexivity. Qed.
+Example C12_ex_pages_after_stop4 :
+  map (fun x => (local_free (snd x), thread_free (snd x), used (snd x))) (pages_after_stop_at true 4 [(1, ex_p1); (2, ex_p2)]) =
+  [([], [], 5); ([], [], 2)].
 Proof. vm_compute. reflexivity. Qed.
